@@ -1,0 +1,103 @@
+//go:build verif
+// +build verif
+
+// Verification hook for C13 (build tag "verif"): runs the real prepareDirs /
+// prepareActionCommands / prepareScript on a configuration text and reports
+// the scripts they wrote.  Add-only; calls the unexported code unchanged.
+
+package cmd
+
+import (
+	"context"
+	"fmt"
+	"io/ioutil"
+	"os"
+)
+
+// VerifScriptActor is what prepareDirs left behind for one actor.
+type VerifScriptActor struct {
+	Name, Role, ExtraEnv, WorkDir string
+	// Scripts maps the script name (an action name, "_spotlight",
+	// "_cleanup") to the text of the prepared script file.
+	Scripts map[string]string
+	// Paths maps the script name to the file the runner would execute.
+	Paths map[string]string
+	// Modes maps the script name to the permission bits of that file.
+	Modes map[string]uint32
+}
+
+// VerifScriptsResult is everything VerifScriptsFull observed.
+type VerifScriptsResult struct {
+	ParseErr string
+	Err      string // error of prepareDirs, if any
+	Panic    string
+	Shell    string // cfg.shellPath as the actors got it
+	RunDir   string // cfg.dataDir after prepareDirs
+	Actors   []VerifScriptActor
+}
+
+// VerifScriptsFull parses cfgText, points the configuration at
+// dataDir/subDir and calls the real prepareDirs (which creates the
+// directories, calls prepareActionCommands/prepareScript for every actor and
+// creates the `latest` link), then reads the script files back.
+func VerifScriptsFull(cfgText, dataDir, subDir string) (res VerifScriptsResult) {
+	defer func() {
+		if r := recover(); r != nil {
+			res.Panic = fmt.Sprintf("%v", r)
+		}
+	}()
+	cfg, err := verifParseString(cfgText, nil)
+	if err != nil {
+		res.ParseErr = err.Error()
+		return res
+	}
+	cfg.dataDir = dataDir
+	cfg.subDir = subDir
+	res.Shell = cfg.shellPath
+	if err := cfg.prepareDirs(context.Background()); err != nil {
+		res.Err = err.Error()
+		return res
+	}
+	res.RunDir = cfg.dataDir
+	for _, an := range cfg.actorNames {
+		a := cfg.actors[an]
+		va := VerifScriptActor{
+			Name: a.name, Role: a.role.name, ExtraEnv: a.extraEnv, WorkDir: a.workDir,
+			Scripts: map[string]string{}, Paths: map[string]string{}, Modes: map[string]uint32{},
+		}
+		add := func(name, path string) {
+			b, err := ioutil.ReadFile(path)
+			if err != nil {
+				res.Err = err.Error()
+				return
+			}
+			va.Scripts[name] = string(b)
+			va.Paths[name] = path
+			if st, err := os.Stat(path); err == nil {
+				va.Modes[name] = uint32(st.Mode().Perm())
+			}
+		}
+		for name, path := range a.actionScripts {
+			add(name, path)
+		}
+		if a.spotlightScript != "" {
+			add("_spotlight", a.spotlightScript)
+		}
+		if a.cleanupScript != "" {
+			add("_cleanup", a.cleanupScript)
+		}
+		res.Actors = append(res.Actors, va)
+	}
+	return res
+}
+
+// VerifScripts is the projection the design names: actor -> script name ->
+// script text.
+func VerifScripts(cfgText, dataDir string) map[string]map[string]string {
+	r := VerifScriptsFull(cfgText, dataDir, "")
+	out := map[string]map[string]string{}
+	for _, a := range r.Actors {
+		out[a.Name] = a.Scripts
+	}
+	return out
+}
